@@ -296,30 +296,144 @@ func rulesC15(c *Ctx) {
 			st := c.P.LookupType(pO, structName)
 			c.Need(st != nil, "oauthex."+structName)
 			vf := c.Fn(pO, "", validator)
-			// tables: composite literals of anonymous struct slices {name, value}
-			var tables []map[string]bool
-			inspectNoLit(vf.Body, func(n ast.Node) {
-				cl, ok := n.(*ast.CompositeLit)
+			// which fields of the metadata struct does each check see? For every loop over a table of rows (a slice literal
+			// of structs holding, among other columns, a field of the metadata struct) whose body calls the check, a row counts
+			// when the call is reachable with the row's constant boolean columns substituted into the branch conditions — so
+			// two tables, or one table with a "called" column, are the same thing
+			vg := vf.Graph()
+			stS := st.Underlying().(*types.Struct)
+			isMetaField := func(e ast.Expr) (string, bool) {
+				sel, ok := ast.Unparen(e).(*ast.SelectorExpr)
 				if !ok {
-					return
+					return "", false
 				}
-				if _, isSlice := vf.TypeOf(cl).Underlying().(*types.Slice); !isSlice {
-					return
-				}
-				t := map[string]bool{}
-				for _, el := range cl.Elts {
-					if row, ok := el.(*ast.CompositeLit); ok && len(row.Elts) == 2 {
-						if s, ok := ast.Unparen(row.Elts[1]).(*ast.SelectorExpr); ok {
-							t[s.Sel.Name] = true
-						}
+				fv, _ := vf.ObjOf(sel.Sel).(*types.Var)
+				for i := 0; i < stS.NumFields(); i++ {
+					if fv != nil && stS.Field(i) == fv {
+						return fv.Name(), true
 					}
 				}
-				if len(t) > 0 {
-					tables = append(tables, t)
+				return "", false
+			}
+			tableOf := func(rs *ast.RangeStmt) *ast.CompositeLit {
+				if cl, ok := ast.Unparen(rs.X).(*ast.CompositeLit); ok {
+					return cl
 				}
-			})
-			c.Need(len(tables) >= 1, validator+": URL tables")
-			sch := tables[0]
+				tv := vf.ObjOf(rs.X)
+				if tv == nil {
+					return nil
+				}
+				var best *ast.CompositeLit
+				bestV := -1
+				for _, w := range Writes(vf.Body, false) {
+					if vf.ObjOf(w.LHS) != tv || w.RHS == nil {
+						continue
+					}
+					cl, ok := ast.Unparen(w.RHS).(*ast.CompositeLit)
+					if !ok {
+						continue
+					}
+					wv := vg.VertexOf(w.Stmt)
+					if vg.Dominates(wv, vg.VertexOf(rs.X)) && (bestV < 0 || vg.Dominates(bestV, wv)) {
+						best, bestV = cl, wv
+					}
+				}
+				return best
+			}
+			nTables := 0
+			seenTables := map[*ast.CompositeLit]bool{}
+			covered := func(chk *types.Func) map[string]bool {
+				out := map[string]bool{}
+				inspectNoLit(vf.Body, func(n ast.Node) {
+					rs, ok := n.(*ast.RangeStmt)
+					if !ok || rs.Value == nil {
+						return
+					}
+					calls := vf.CallsIn(rs.Body, chk, false)
+					if len(calls) == 0 {
+						return
+					}
+					cl := tableOf(rs)
+					if cl == nil {
+						return
+					}
+					sl, isSlice := vf.TypeOf(cl).Underlying().(*types.Slice)
+					if !isSlice {
+						return
+					}
+					rowT, isStruct := sl.Elem().Underlying().(*types.Struct)
+					if !isStruct {
+						return
+					}
+					if !seenTables[cl] {
+						seenTables[cl] = true
+						nTables++
+					}
+					rowVar := vf.ObjOf(rs.Value)
+					for _, el := range cl.Elts {
+						row, ok := el.(*ast.CompositeLit)
+						if !ok {
+							continue
+						}
+						name := ""
+						flags := map[string]bool{}
+						for i, e := range row.Elts {
+							col := ""
+							val := e
+							if kv, isKV := e.(*ast.KeyValueExpr); isKV {
+								col, val = exprStr(kv.Key), kv.Value
+							} else if i < rowT.NumFields() {
+								col = rowT.Field(i).Name()
+							}
+							if nm, isF := isMetaField(val); isF {
+								name = nm
+							}
+							if bv, isB := vf.ConstBool(val); isB {
+								flags[col] = bv
+							}
+						}
+						if name == "" {
+							continue
+						}
+						// unset boolean columns are false
+						for i := 0; i < rowT.NumFields(); i++ {
+							if b, isB := rowT.Field(i).Type().Underlying().(*types.Basic); isB && b.Kind() == types.Bool {
+								if _, set := flags[rowT.Field(i).Name()]; !set {
+									flags[rowT.Field(i).Name()] = false
+								}
+							}
+						}
+						reach := vg.ReachUnder(func(e ast.Expr) tri {
+							sel, ok := ast.Unparen(e).(*ast.SelectorExpr)
+							if !ok || vf.ObjOf(sel.X) != rowVar {
+								return triUnknown
+							}
+							if bv, has := flags[sel.Sel.Name]; has {
+								if bv {
+									return triTrue
+								}
+								return triFalse
+							}
+							return triUnknown
+						}, nil)
+						for _, call := range calls {
+							if len(call.Args) == 1 {
+								if as, isSel := ast.Unparen(call.Args[0]).(*ast.SelectorExpr); isSel && vf.ObjOf(as.X) == rowVar && reach[vg.VertexOf(call)] {
+									out[name] = true
+								}
+							}
+						}
+					}
+				})
+				return out
+			}
+			sch := covered(scheme)
+			c.Need(len(sch) >= 1, validator+": URL tables")
+			var tables []map[string]bool
+			tables = append(tables, sch)
+			if https := covered(httpsOrLb); len(https) > 0 {
+				tables = append(tables, https)
+			}
 			for _, fld := range structFields(st) {
 				tag, _ := jsonTag(st.Underlying().(*types.Struct).Tag(fieldIndex(st, fld)), fld.Name())
 				isURL := strings.HasSuffix(tag, "_endpoint") || strings.HasSuffix(tag, "_uri") || tag == "service_documentation"
@@ -338,11 +452,9 @@ func rulesC15(c *Ctx) {
 				})
 				c.Check(okLoop, validator+":covers-"+extraLoopField, vf, nil, "every %s entry is scheme-checked", extraLoopField)
 			}
-			wantTables := 1
 			if structName == "AuthServerMeta" {
-				wantTables = 2 // script-scheme table and https-or-loopback table
+				c.Check(len(tables) == 2, validator+":table-count", vf, nil, "both checks are applied to rows of a table: the script-scheme check and the https-or-loopback check (%d of 2 found, %d table literals)", len(tables), nTables)
 			}
-			c.Check(len(tables) == wantTables, validator+":table-count", vf, nil, "%d validation tables found, %d expected", len(tables), wantTables)
 			if len(tables) >= 2 {
 				https := tables[1]
 				// every URL field of the struct read outside oauthex's validators must be https-checked
@@ -378,19 +490,6 @@ func rulesC15(c *Ctx) {
 		}
 		checkTables("AuthServerMeta", "validateAuthServerMetaURLs", "")
 		checkTables("ClientRegistrationMetadata", "validateClientRegistrationURLs", "RedirectURIs")
-		// each table row is actually checked: the loops call the check on u.value and return its error
-		vf := c.Fn(pO, "", "validateAuthServerMetaURLs")
-		nl := 0
-		inspectNoLit(vf.Body, func(n ast.Node) {
-			if rs, ok := n.(*ast.RangeStmt); ok && isTableVar(vf, rs.X) {
-				for _, chk := range []*types.Func{scheme, httpsOrLb} {
-					if len(vf.CallsIn(rs.Body, chk, false)) > 0 {
-						nl++
-					}
-				}
-			}
-		})
-		c.Check(nl == 2, "validateAuthServerMetaURLs:both-tables-applied", vf, nil, "the scheme table is applied with checkURLScheme and the endpoint table with checkHTTPSOrLoopback (%d/2)", nl)
 	})
 
 	c.Rule("R-C15-4", "an authorization code is exchanged, and a token installed, only after the state and RFC 9207 issuer checks passed", func() {
